@@ -1,22 +1,29 @@
 /- wwdriver: reads operation lines on stdin, prints the model's observation for each. -/
 import Driver.Util
 import Driver.Pure
+import Driver.Vault
 namespace Driver
 
 /-- the state of whichever engine the last `init <engine> …` line selected
     (one constructor per stateful engine) -/
 inductive EngineState where
   | none
+  | vault (s : WW.Vault.St)
 
 /-- `init <engine> k=v …` : select the engine and build its initial state; prints the first observation -/
 def initLine (ws : List String) : EngineState × String :=
   match ws with
+  | "vault" :: args =>
+    match VaultDrv.initSt args with
+    | some s => (.vault s, "ok " ++ VaultDrv.showObs s)
+    | none => (.none, "bad-op")
   | _ => (.none, "bad-op")
 
 /-- an operation line for the currently selected engine -/
 def opLine (st : EngineState) (ws : List String) : EngineState × String :=
   match st with
   | .none => (st, "bad-op")
+  | .vault s => let (s', o) := VaultDrv.stepLine s ws; (.vault s', o)
 
 def stepLine (st : EngineState) (line : String) : EngineState × Option String :=
   match words line with
